@@ -62,7 +62,7 @@ ValsOf(f) == {f[p] : p \in DOMAIN f}
 
 (* Max starts from math.SmallestNonzeroFloat64 (prints as 0.00000000): answers
    that are all negative give 0 *)
-CodeMax(f) == Max(0, SetMax(ValsOf(f)))
+CodeMax(f) == SetMax(ValsOf(f))   \* fix bb6c4a3 (F15): before it Max(0, ...), the loop started from the smallest positive float
 CodeMin(f) == SetMin(ValsOf(f))
 
 AvgOK(v, f) ==
